@@ -101,6 +101,24 @@ func VerifC15Write() {
 		rt.Assert(err != nil, "escaping-name-reports-error")
 		rt.Reach("escaping-name")
 	}
+	// a single entry that stays inside, names a fresh path below existing
+	// directories only, and contains no NUL is extracted (this is what the
+	// txtar-c / txtar-x round trip relies on)
+	if n == 1 && !anyEscapes {
+		name := a.Files[0].Name
+		p := vRefJoin(vExtractDir, name)
+		plain := p != vExtractDir && !before[p] && !strings.Contains(name, "\x00")
+		for q := p; plain && q != vExtractDir; {
+			q = q[:strings.LastIndex(q, "/")]
+			if before[q] && !fsysIsDir(fsys, q) {
+				plain = false
+			}
+		}
+		if plain {
+			rt.Assert(err == nil, "plain-inside-name-is-extracted")
+			rt.Reach("plain-name-accepted")
+		}
+	}
 	if err == nil {
 		rt.Reach("written")
 		// every entry's file holds exactly its data
@@ -140,3 +158,8 @@ func vRefJoin(dir, name string) string {
 
 // VerifC15WriteTwo: two entries (registered with shorter names).
 func VerifC15WriteTwo() { VerifC15Write() }
+
+func fsysIsDir(f *vfs.FS, p string) bool {
+	n := f.File(p)
+	return n != nil && n.Dir
+}
